@@ -230,7 +230,8 @@ def run(ctx):
                         "(ErrUnknownAncestor, ErrExistCanonical, ErrOlderBlockTime, ErrFutureBlock; no seal rules), implementing "
                         "consensus.Ucon so that insertSidechain / verifyAllSideChainBlocks / the side-chain re-import run as with "
                         "the real engine (harness/drive/chainimport/uconlike.go)",
-                        "tree: G-A1(t1)-A2(t2)-A3, G-B1(t1)-B2-B3(t3)-B4; invalid: X (child of A1) and S2 (child of B1) wrong state "
+                        "tree: G-A1(t1)-A2(t2)-A3(t4)-A4, G-B1(t1)-B2(t4)-B3(t3)-B4 (t1 shared at the same height, t4 at different heights); "
+                        "invalid: X (child of A1) and S2 (child of B1) wrong state "
                         "root, R3 (child of B2) wrong receipt root, U4 (child of B3) wrong gas used, T2 (child of B1, with valid-"
                         "looking descendants T3, T4) and V4 (child of B3) header.TxHash not matching the body; further blocks F_b "
                         "without transactions",
